@@ -16,8 +16,8 @@ CONFIG = {
             'random: up to 8 files, long lines, \\n / \\r\\n / \\r / mixed, missing final newline, buffers up to 40 words, mixed '
             'consumption, SingleThreadedInputSplit; default 8 MB buffer and InputSplit::Create on real files. Non-trivial = at '
             'least one state tuple observed; labels: carry-over (overflow_ non-empty), buffer-doubling, empty-part, multi-file.',
-    'assumptions': ['files are non-empty and NUL-free (property text); total size < 2^62 and num_parts < 2^32 so that the '
-                    'size_t partition arithmetic does not wrap',
+    'assumptions': ['files are non-empty and NUL-free (property text); total size < 2^55 bytes, num_parts < 2^32, buffer < 2^56 '
+                    'words so that the size_t arithmetic (partition step, offset_curr_ + size, buffer doubling) does not wrap',
                     'a stream Read returns min(size, remaining) bytes (MemFS; FileStream on regular files): the model visits '
                     'each file once in the Read loop',
                     'directory listing / URI expansion is exercised by the harness but not modelled (the model starts from the '
